@@ -110,7 +110,7 @@ func Main() {
 		if only == "" {
 			r.Floor("tamper_enumeration_runs", int64(expected))
 			r.Floor("tamper_all_bytes_positions", 2*refSealed)
-			r.Floor("handshakes_honest_ok", 500)
+			r.Floor("handshakes_honest_ok", 300)
 			r.Floor("stream_frames", 3000)
 			r.Floor("stream_reads", 100000)
 			r.Floor("concurrent_writer_switches", 200)
